@@ -369,6 +369,11 @@ def gen_case(seed, tier='quick'):
                          else bool(two or (rng.random() < 0.3 and
                                            sheets[0].isalnum()))),
              'fail_on': 1}
+    if world['qualify'] != 'loose' and rng.random() < 0.1 and all(
+            sh.isalnum() and sh.isascii() for sh in sheets):
+        # the same graph as a workbook file, loaded through the reader
+        world['provenance'] = 'xlsx'
+        world['calc_pr'] = rng.choice(CALC_PR)
     ops = []
     e = addrs[entry]
     via_name = None
@@ -713,6 +718,43 @@ def run_case(case):
         uninstall_fs()
 
 
+CALC_PR = [None, None, 'calcId="191029"', 'iterate="1"',
+           'iterate="1" iterateCount="10" iterateDelta="0.01"',
+           'calcMode="manual"', 'fullCalcOnLoad="1"', 'calcOnSave="0"']
+
+
+def model_from_xlsx(cells, names, calc_pr):
+    """The same cells and names written as an .xlsx workbook (with its
+    workbook-level calculation options) and loaded through the reader."""
+    from xlcalculator import ModelCompiler
+    from .. import xlsx
+    from ..seams import _Installed
+    sheets = {}
+    for a, v in cells.items():
+        sheet, loc = a.split('!')
+        if isinstance(v, bool):
+            spec = {'form': 'b', 'value': v}
+        elif isinstance(v, (int, float)):
+            spec = {'form': 'n', 'text': repr(v)}
+        elif isinstance(v, str) and v.startswith('='):
+            spec = {'form': 'f', 'parts': [v[1:]]}
+        elif isinstance(v, str):
+            spec = {'form': 'inlineStr', 'value': v}
+        else:
+            continue
+        sheets.setdefault(sheet, {})[loc] = spec
+    wb = {'sheets': [{'name': s, 'cells': c} for s, c in sheets.items()],
+          'names': {n: {'sheet': t.split('!')[0],
+                        'ref': t.split('!')[1].replace('$', '')}
+                    for n, t in names.items()},
+          'calc_pr': calc_pr}
+    fs = _Installed.fs
+    fs.put('/simfs/c06.xlsx', xlsx.render_xlsx(wb, {'seed': 1}))
+    model = ModelCompiler().read_and_parse_archive('/simfs/c06.xlsx')
+    fs.reset_op()
+    return model
+
+
 def _run_case(case):
     from xlcalculator import Evaluator
     world = case['world']
@@ -750,8 +792,14 @@ def _run_case(case):
             except Exception:
                 pass
         loose = world.get('qualify') == 'loose'
-        model = worlds.build_model(cells, names, default_sheet=s0,
-                                   per_sheet=not loose)
+        if world.get('provenance') == 'xlsx':
+            model = model_from_xlsx(cells, names, world.get('calc_pr'))
+            bump('probe:model_loaded_from_xlsx')
+            if world.get('calc_pr'):
+                bump('probe:workbook_calculation_options_set')
+        else:
+            model = worlds.build_model(cells, names, default_sheet=s0,
+                                       per_sheet=not loose)
         uf = UserFuncs(fail_on=world.get('fail_on'))
         if world.get('evaluator_first'):
             # the evaluator exists before the model gets its contents (the
